@@ -97,6 +97,9 @@ type Case struct {
 	// 2 = Parse and RunAfterParsed under the opposite fixed mode first, then the mode is switched, then RunAfterParsed
 	// again (a host that shows the bounds of one parsed expression): the mode in force when the code runs decides
 	Late int `json:"late,omitempty"`
+	// Both: the min-mode evaluations run with DiceMaxMode switched on as well (a host that forgot to clear it): still a
+	// fixed mode that consumes no randomness, and by the code's precedence still the lower bound
+	Both bool `json:"both,omitempty"`
 }
 
 // default-sides expressions and the value each yields under (min, max) mode
@@ -511,7 +514,7 @@ func runVM(c *Case, src string, mode int, seed uint64, unseeded bool) runOut {
 	vm.Config.DefaultDiceSideExpr = c.DefaultSides
 	setMode := func(m int) {
 		vm.Config.DiceMinMode = m < 0
-		vm.Config.DiceMaxMode = m > 0
+		vm.Config.DiceMaxMode = m > 0 || (m < 0 && c.Both)
 	}
 	var out runOut
 	var err error
@@ -1009,6 +1012,7 @@ func drawTermCase(t *rapid.T) *Case {
 	c.Seeds = drawSeeds(t, 2, 6)
 	c.Unseeded = rapid.IntRange(0, 6).Draw(t, "unseeded") == 6
 	c.Late = rapid.SampledFrom([]int{0, 0, 0, 1, 2}).Draw(t, "late")
+	c.Both = rapid.IntRange(0, 5).Draw(t, "both") == 0
 	c.Src = printCase(c)
 	return c
 }
@@ -1028,6 +1032,7 @@ func drawExprCase(t *rapid.T) *Case {
 	c.Seeds = drawSeeds(t, 2, 5)
 	c.Unseeded = rapid.IntRange(0, 6).Draw(t, "unseeded") == 6
 	c.Late = rapid.SampledFrom([]int{0, 0, 0, 1, 2}).Draw(t, "late")
+	c.Both = rapid.IntRange(0, 5).Draw(t, "both") == 0
 	c.Src = printCase(c)
 	return c
 }
